@@ -234,10 +234,7 @@ func (f *fn) typeOf(t ast.Expr, p *pkg, file *ast.File) *ty {
 		if r != nil && r.k == kStruct {
 			return r
 		}
-	case *ast.ArrayType:
-		if t.Len != nil {
-			return nil
-		}
+	case *ast.ArrayType: // an array `[n]T` / `[...]T` is indexed like a slice (only read in this subset)
 		el := f.typeOf(t.Elt, p, file)
 		if el == nil || el.k == kFunc || el.k == kStruct || el.k == kND1 {
 			return nil
